@@ -175,6 +175,10 @@ pub fn by_po<const N: u32, X: P>(a: &X, b: &X) -> Option<Ordering> {
         Some(ka.cmp(&kb))
     }
 }
+/// total variant used where all callbacks of a field must express one and the same key (C02)
+pub fn by_po_total<const N: u32, X: P>(a: &X, b: &X) -> Option<Ordering> {
+    Some((a.p() >> N).cmp(&(b.p() >> N)))
+}
 pub fn by_hash<const N: u32, X: P, H: core::hash::Hasher>(a: &X, h: &mut H) {
     h.write_u8(0xB0 | N as u8);
     h.write_u8(a.p() >> N);
